@@ -267,6 +267,63 @@ def check_alias(arg):
     return fails, 1
 
 
+def check_owner_limit(arg):
+    """the configured limit is the owner's: an address, a group member or an address group built from text with limit L rejects a mask that needs more
+    than L non-contiguous bits (an error, or for a group the member is not taken and a record is logged) and keeps one that needs at most L"""
+    import logging
+    import cisco_acl
+    owner, k, limit = arg
+    mask = sum(1 << (2 * i + 1) for i in range(k))            # k non-contiguous bits: 0b...101010
+    wild = f"192.0.0.0 {quad(mask)}"              # base bits 31, 30 only: none under the mask
+    fails = []
+
+    class H(logging.Handler):
+        seen = []
+
+        def emit(self, r):
+            H.seen.append(r.getMessage())
+    H.seen = []
+    hd = H()
+    lg = logging.getLogger()
+    old = lg.level
+    lg.addHandler(hd)
+    lg.setLevel(logging.DEBUG)
+    try:
+        if owner == "Address":
+            o = cisco_acl.Address(wild, platform="ios", max_ncwb=limit)
+            kept = o.line == wild
+        elif owner == "AddressAg":
+            o = cisco_acl.AddressAg(wild, platform="nxos", max_ncwb=limit)
+            kept = o.line == wild
+        elif owner == "AddrGroup-text":
+            o = cisco_acl.AddrGroup(f"object-group ip address A\n 10 {wild}\n 20 10.1.0.0/24", platform="nxos", max_ncwb=limit)
+            kept = any(wild in m.line for m in o.items)
+        elif owner == "AddrGroup-items":
+            o = cisco_acl.AddrGroup(name="A", items=[f"10 {wild}", "20 10.1.0.0/24"], platform="nxos", max_ncwb=limit)
+            kept = any(wild in m.line for m in o.items)
+        else:
+            o = cisco_acl.Ace(f"permit ip {wild} any", platform="ios", max_ncwb=limit)
+            kept = wild in o.line
+        raised = None
+    except ValueError as ex:
+        kept, raised = False, ex
+    finally:
+        lg.removeHandler(hd)
+        lg.setLevel(old)
+    what = None
+    if k > limit and kept:
+        what = f"{owner} with max_ncwb={limit} accepted {wild!r}, which needs {k} non-contiguous bits"
+    elif k <= limit and not kept:
+        what = f"{owner} with max_ncwb={limit} did not keep {wild!r}, which needs only {k} non-contiguous bits ({'raised ' + type(raised).__name__ if raised else 'silently left out'})"
+    elif k > limit and raised is None and not any(quad(mask) in m for m in H.seen):
+        what = f"{owner} with max_ncwb={limit} left out {wild!r} without an error and without naming it in a log record"
+    if what:
+        fails.append(dict(key=f"bounded/{owner}:limit:{'over' if k > limit else 'within'}", what=what, inputs=dict(owner=owner, bits=k, max_ncwb=limit, line=wild),
+                          cmd=("import sys; sys.path.insert(0, 'props'); import C05\n"
+                               f"fails, _ = C05.check_owner_limit({arg!r})\nprint([f['what'] for f in fails]); sys.exit(1 if fails else 0)\n")))
+    return fails, 1
+
+
 def replay_line_fset(model, ob):
     """native search for a reassignment history on which a derived value does not describe the current line"""
     pool = ["10.0.0.0 0.0.1.3", "10.0.0.0 0.0.0.255", "10.0.1.0 0.0.0.255", "20.0.0.0 0.0.1.3", "10.0.0.0 0.0.3.3", "limit=0", "limit=1"]
@@ -349,6 +406,17 @@ def main(chk):
             chk.finding(f["key"], f["what"], inputs=f["inputs"], cmd=f["cmd"], key=f["key"])
     chk.add_bounded("the list returned by ipnets() is a copy: editing it changes no later answer (same object, copy, new equal object, address)", len(acases), len(acases),
                     "4 masks x 3 ways of editing the returned list", viol, time.time() - t0, [list(acases[0])], exhaustive=True)
+    t0 = time.time()
+    ocases = [(o, k, l) for o in ("Address", "AddressAg", "AddrGroup-text", "AddrGroup-items", "Ace") for k, l in
+              ((1, 0), (1, 1), (2, 1), (3, 2), (3, 3), (5, 16), (15, 16), (4, 3), (2, 30), (6, 5), (13, 12), (13, 14))]
+    res = pmap(check_owner_limit, ocases)
+    viol = 0
+    for fails, _ in res:
+        for f in fails:
+            viol += 1
+            chk.finding(f["key"], f["what"], inputs=f["inputs"], cmd=f["cmd"], key=f["key"])
+    chk.add_bounded("the limit configured on the owner (Address, AddressAg, AddrGroup from text / from items, Ace) decides about its masks", len(ocases), len(ocases),
+                    "5 owners x 10 (bits needed, limit) pairs on both sides of the limit", viol, time.time() - t0, [list(ocases[0])], exhaustive=True)
     chk.assumptions += [
         "assumed contracts on dependencies (audited, not proved): ipaddress.IPv4Address text codec (IP_OK/IP_PARSE), IPv4Network((addr, len)), str.split(), "
         "itertools.product((0,1), repeat=k) = all k-tuples once in lexicographic order (TBIT), functools.lru_cache = first result per key",
